@@ -13,47 +13,48 @@ namespace MenpoModel.C10
 open Matrix
 
 variable {n d k k' : ℕ}
+variable {K : Type} [Field K] [LinearOrder K] [IsStrictOrderedRing K]
 
 
-theorem centred_sum_zero (X : Matrix (Fin n) (Fin d) ℚ) (hn : n ≠ 0) (j : Fin d) :
+theorem centred_sum_zero (X : Matrix (Fin n) (Fin d) K) (hn : n ≠ 0) (j : Fin d) :
     ∑ i, centred X (mean X) i j = 0 := by
-  have hn' : (n : ℚ) ≠ 0 := by exact_mod_cast hn
+  have hn' : (n : K) ≠ 0 := by exact_mod_cast hn
   simp only [centred, mean, Matrix.of_apply, Finset.sum_sub_distrib, Finset.sum_const, Finset.card_univ,
     Fintype.card_fin, nsmul_eq_mul]
   field_simp
   ring
 
-theorem mean_is_sample_mean (X : Matrix (Fin n) (Fin d) ℚ) (hn : n ≠ 0) (j : Fin d) :
-    (n : ℚ) * pcaMean true X j = ∑ i, X i j := by
-  have hn' : (n : ℚ) ≠ 0 := by exact_mod_cast hn
+theorem mean_is_sample_mean (X : Matrix (Fin n) (Fin d) K) (hn : n ≠ 0) (j : Fin d) :
+    (n : K) * pcaMean true X j = ∑ i, X i j := by
+  have hn' : (n : K) ≠ 0 := by exact_mod_cast hn
   simp only [pcaMean, mean, if_true]
   field_simp
 
-theorem cov_transpose (Xc : Matrix (Fin n) (Fin d) ℚ) : (cov Xc)ᵀ = cov Xc := by
+theorem cov_transpose (Xc : Matrix (Fin n) (Fin d) K) : (cov Xc)ᵀ = cov Xc := by
   simp [cov, transpose_smul, transpose_mul]
 
-theorem gram_transpose (Xc : Matrix (Fin n) (Fin d) ℚ) : (gram Xc)ᵀ = gram Xc := by
+theorem gram_transpose (Xc : Matrix (Fin n) (Fin d) K) : (gram Xc)ᵀ = gram Xc := by
   simp [gram, transpose_smul, transpose_mul]
 
-theorem symmetrize_of_symm {a : ℕ} (C : Matrix (Fin a) (Fin a) ℚ) (h : Cᵀ = C) : symmetrize C = C := by
+theorem symmetrize_of_symm {a : ℕ} (C : Matrix (Fin a) (Fin a) K) (h : Cᵀ = C) : symmetrize C = C := by
   ext i j
   simp only [symmetrize, h, smul_apply, add_apply, smul_eq_mul]
   ring
 
-theorem symmetrize_cov (Xc : Matrix (Fin n) (Fin d) ℚ) : symmetrize (cov Xc) = cov Xc :=
+theorem symmetrize_cov (Xc : Matrix (Fin n) (Fin d) K) : symmetrize (cov Xc) = cov Xc :=
   symmetrize_of_symm _ (cov_transpose Xc)
 
-theorem symmetrize_gram (Xc : Matrix (Fin n) (Fin d) ℚ) : symmetrize (gram Xc) = gram Xc :=
+theorem symmetrize_gram (Xc : Matrix (Fin n) (Fin d) K) : symmetrize (gram Xc) = gram Xc :=
   symmetrize_of_symm _ (gram_transpose Xc)
 
-theorem EigContract.conj {C : Matrix (Fin d) (Fin d) ℚ} {U : Matrix (Fin k) (Fin d) ℚ} {l : Fin k → ℚ}
+theorem EigContract.conj {C : Matrix (Fin d) (Fin d) K} {U : Matrix (Fin k) (Fin d) K} {l : Fin k → K}
     (h : EigContract C U l) : U * C * Uᵀ = diagonal l := by
   rw [h.eig, Matrix.mul_assoc, h.orth, Matrix.mul_one]
 
-theorem variance_identity {Xc : Matrix (Fin n) (Fin d) ℚ} {U : Matrix (Fin k) (Fin d) ℚ} {l : Fin k → ℚ}
+theorem variance_identity {Xc : Matrix (Fin n) (Fin d) K} {U : Matrix (Fin k) (Fin d) K} {l : Fin k → K}
     (h : EigContract (cov Xc) U l) (i : Fin k) : l i = sampleVariance Xc U i := by
   have h1 := h.conj
-  have h2 : U * cov Xc * Uᵀ = ((n : ℚ) - 1)⁻¹ • ((Xc * Uᵀ)ᵀ * (Xc * Uᵀ)) := by
+  have h2 : U * cov Xc * Uᵀ = ((n : K) - 1)⁻¹ • ((Xc * Uᵀ)ᵀ * (Xc * Uᵀ)) := by
     simp [cov, transpose_mul, Matrix.mul_assoc]
   have h3 := congrFun (congrFun (h1.symm.trans h2) i) i
   rw [diagonal_apply_eq] at h3
@@ -66,28 +67,28 @@ theorem variance_identity {Xc : Matrix (Fin n) (Fin d) ℚ} {U : Matrix (Fin k) 
 
 
 
-theorem gram_path_contract {Xc : Matrix (Fin n) (Fin d) ℚ} {V : Matrix (Fin k) (Fin n) ℚ}
-    {l w : Fin k → ℚ} (hn : 2 ≤ n) (hV : V * Vᵀ = 1) (hG : V * gram Xc = diagonal l * V)
-    (hw : ∀ i, w i ^ 2 * (((n : ℚ) - 1) * l i) = 1) :
+theorem gram_path_contract {Xc : Matrix (Fin n) (Fin d) K} {V : Matrix (Fin k) (Fin n) K}
+    {l w : Fin k → K} (hn : 2 ≤ n) (hV : V * Vᵀ = 1) (hG : V * gram Xc = diagonal l * V)
+    (hw : ∀ i, w i ^ 2 * (((n : K) - 1) * l i) = 1) :
     EigContract (cov Xc) (gramComponents w V Xc) l := by
-  have hc : ((n : ℚ) - 1) ≠ 0 := by
-    have : (2 : ℚ) ≤ n := by exact_mod_cast hn
+  have hc : ((n : K) - 1) ≠ 0 := by
+    have : (2 : K) ≤ n := by exact_mod_cast hn
     linarith
-  have hXX : Xc * Xcᵀ = ((n : ℚ) - 1) • gram Xc := by
+  have hXX : Xc * Xcᵀ = ((n : K) - 1) • gram Xc := by
     simp [gram, smul_smul, mul_inv_cancel₀ hc]
   constructor
   · -- orthonormal rows
     have e1 : gramComponents w V Xc * (gramComponents w V Xc)ᵀ
         = diagonal w * (V * (Xc * Xcᵀ) * Vᵀ) * diagonal w := by
       simp [gramComponents, transpose_mul, Matrix.mul_assoc]
-    have e2 : V * (Xc * Xcᵀ) * Vᵀ = ((n : ℚ) - 1) • diagonal l := by
+    have e2 : V * (Xc * Xcᵀ) * Vᵀ = ((n : K) - 1) • diagonal l := by
       rw [hXX, Matrix.mul_smul, hG, Matrix.smul_mul, Matrix.mul_assoc, hV, Matrix.mul_one]
     rw [e1, e2, ← diagonal_smul, diagonal_mul_diagonal, diagonal_mul_diagonal, ← diagonal_one]
     congr 1
     ext i
     have := hw i
     simp only [Pi.smul_apply, smul_eq_mul]
-    calc w i * (((n : ℚ) - 1) * l i) * w i = w i ^ 2 * (((n : ℚ) - 1) * l i) := by ring
+    calc w i * (((n : K) - 1) * l i) * w i = w i ^ 2 * (((n : K) - 1) * l i) := by ring
       _ = 1 := this
   · -- eigen-rows of the covariance
     have e1 : gramComponents w V Xc * cov Xc = diagonal w * ((V * gram Xc) * Xc) := by
@@ -97,45 +98,45 @@ theorem gram_path_contract {Xc : Matrix (Fin n) (Fin d) ℚ} {V : Matrix (Fin k)
     have : (fun i => w i * l i) = (fun i => l i * w i) := by ext i; ring
     rw [this]
 
-theorem project_eq (U : Matrix (Fin k) (Fin d) ℚ) (m x : Fin d → ℚ) : project U m x = U *ᵥ (x - m) := by
+theorem project_eq (U : Matrix (Fin k) (Fin d) K) (m x : Fin d → K) : project U m x = U *ᵥ (x - m) := by
   simp [project, vecMul_transpose]
 
-theorem project_instance {U : Matrix (Fin k) (Fin d) ℚ} (hU : U * Uᵀ = 1) (m : Fin d → ℚ) (w : Fin k → ℚ) :
+theorem project_instance {U : Matrix (Fin k) (Fin d) K} (hU : U * Uᵀ = 1) (m : Fin d → K) (w : Fin k → K) :
     project U m (inst U m w) = w := by
   rw [project_eq, inst, add_sub_cancel_right, ← mulVec_transpose, mulVec_mulVec, hU, one_mulVec]
 
-theorem reconstruct_idempotent {U : Matrix (Fin k) (Fin d) ℚ} (hU : U * Uᵀ = 1) (m x : Fin d → ℚ) :
+theorem reconstruct_idempotent {U : Matrix (Fin k) (Fin d) K} (hU : U * Uᵀ = 1) (m x : Fin d → K) :
     reconstruct U m (reconstruct U m x) = reconstruct U m x := by
   unfold reconstruct
   rw [project_instance hU]
 
 /-- the matrix of the reconstruction map about the mean -/
-def projector (U : Matrix (Fin k) (Fin d) ℚ) : Matrix (Fin d) (Fin d) ℚ := Uᵀ * U
+def projector (U : Matrix (Fin k) (Fin d) K) : Matrix (Fin d) (Fin d) K := Uᵀ * U
 
-theorem reconstruct_eq_projector (U : Matrix (Fin k) (Fin d) ℚ) (m x : Fin d → ℚ) :
+theorem reconstruct_eq_projector (U : Matrix (Fin k) (Fin d) K) (m x : Fin d → K) :
     reconstruct U m x = projector U *ᵥ (x - m) + m := by
   rw [reconstruct, inst, project_eq, projector, ← mulVec_mulVec, mulVec_transpose]
 
-theorem projector_idempotent {U : Matrix (Fin k) (Fin d) ℚ} (hU : U * Uᵀ = 1) :
+theorem projector_idempotent {U : Matrix (Fin k) (Fin d) K} (hU : U * Uᵀ = 1) :
     projector U * projector U = projector U := by
   unfold projector
   rw [Matrix.mul_assoc, ← Matrix.mul_assoc U, hU, Matrix.one_mul]
 
-theorem projector_symm (U : Matrix (Fin k) (Fin d) ℚ) : (projector U)ᵀ = projector U := by
+theorem projector_symm (U : Matrix (Fin k) (Fin d) K) : (projector U)ᵀ = projector U := by
   simp [projector, transpose_mul]
 
-theorem reconstruct_add_projectOut (U : Matrix (Fin k) (Fin d) ℚ) (m x : Fin d → ℚ) :
+theorem reconstruct_add_projectOut (U : Matrix (Fin k) (Fin d) K) (m x : Fin d → K) :
     reconstruct U m x + projectOut U m x = x := by
   unfold reconstruct inst projectOut
   ext j; simp only [Pi.add_apply, Pi.sub_apply]; ring
 
-theorem residual_orthogonal {U : Matrix (Fin k) (Fin d) ℚ} (hU : U * Uᵀ = 1) (m x : Fin d → ℚ) :
+theorem residual_orthogonal {U : Matrix (Fin k) (Fin d) K} (hU : U * Uᵀ = 1) (m x : Fin d → K) :
     U *ᵥ projectOut U m x = 0 := by
   have h := project_instance hU 0 (project U m x)
   rw [project_eq, inst, add_zero, sub_zero] at h
   rw [projectOut, mulVec_sub, h, project_eq, sub_self]
 
-theorem contract_prefix {C : Matrix (Fin d) (Fin d) ℚ} {U : Matrix (Fin k) (Fin d) ℚ} {l : Fin k → ℚ}
+theorem contract_prefix {C : Matrix (Fin d) (Fin d) K} {U : Matrix (Fin k) (Fin d) K} {l : Fin k → K}
     (h : EigContract C U l) (hk : k' ≤ k) :
     EigContract C (prefixRows U hk) (l ∘ Fin.castLE hk) := by
   constructor
@@ -150,7 +151,7 @@ theorem contract_prefix {C : Matrix (Fin d) (Fin d) ℚ} {U : Matrix (Fin k) (Fi
     rw [diagonal_mul, Matrix.mul_apply]
     simpa [prefixRows] using this
 
-theorem eq_zero_of_trace_transpose_mul_self {a b : ℕ} (R : Matrix (Fin a) (Fin b) ℚ)
+theorem eq_zero_of_trace_transpose_mul_self {a b : ℕ} (R : Matrix (Fin a) (Fin b) K)
     (h : trace (Rᵀ * R) = 0) : R = 0 := by
   have h1 : trace (Rᵀ * R) = ∑ j, ∑ i, R i j * R i j := by
     simp [trace, Matrix.mul_apply]
@@ -162,16 +163,16 @@ theorem eq_zero_of_trace_transpose_mul_self {a b : ℕ} (R : Matrix (Fin a) (Fin
   simpa using h3
 
 /-- the rows of the centred data lie in the span of the components when no variance is discarded -/
-theorem residual_matrix_zero {Xc : Matrix (Fin n) (Fin d) ℚ} {U : Matrix (Fin k) (Fin d) ℚ} {l : Fin k → ℚ}
+theorem residual_matrix_zero {Xc : Matrix (Fin n) (Fin d) K} {U : Matrix (Fin k) (Fin d) K} {l : Fin k → K}
     (hn : 2 ≤ n) (h : EigContract (cov Xc) U l) (htr : trace (cov Xc) = ∑ i, l i) :
     Xc - Xc * projector U = 0 := by
-  have hc : ((n : ℚ) - 1) ≠ 0 := by
-    have : (2 : ℚ) ≤ n := by exact_mod_cast hn
+  have hc : ((n : K) - 1) ≠ 0 := by
+    have : (2 : K) ≤ n := by exact_mod_cast hn
     linarith
   apply eq_zero_of_trace_transpose_mul_self
   set P := projector U with hP
   set S := Xcᵀ * Xc with hS
-  have hS' : S = ((n : ℚ) - 1) • cov Xc := by
+  have hS' : S = ((n : K) - 1) • cov Xc := by
     simp [cov, hS, smul_smul, mul_inv_cancel₀ hc]
   have e1 : (Xc - Xc * P)ᵀ * (Xc - Xc * P) = S - S * P - P * S + P * S * P := by
     simp only [transpose_sub, transpose_mul, projector_symm, hP, Matrix.sub_mul, Matrix.mul_sub, hS,
@@ -180,18 +181,18 @@ theorem residual_matrix_zero {Xc : Matrix (Fin n) (Fin d) ℚ} {U : Matrix (Fin 
   have t1 : trace (P * S) = trace (S * P) := trace_mul_comm _ _
   have t2 : trace (P * S * P) = trace (S * P) := by
     rw [trace_mul_comm, ← Matrix.mul_assoc, hP, projector_idempotent h.orth, trace_mul_comm]
-  have t3 : trace (S * P) = ((n : ℚ) - 1) * ∑ i, l i := by
+  have t3 : trace (S * P) = ((n : K) - 1) * ∑ i, l i := by
     have : trace (S * P) = trace (U * S * Uᵀ) := by
       rw [hP, projector, ← Matrix.mul_assoc, trace_mul_comm, ← Matrix.mul_assoc]
     rw [this, hS', Matrix.mul_smul, Matrix.smul_mul, h.conj, trace_smul, trace_diagonal, smul_eq_mul]
-  have t4 : trace S = ((n : ℚ) - 1) * trace (cov Xc) := by
+  have t4 : trace S = ((n : K) - 1) * trace (cov Xc) := by
     rw [hS', trace_smul, smul_eq_mul]
   rw [e1, trace_add, trace_sub, trace_sub, t1, t2, t3, t4, htr]
   ring
 
-theorem full_model_reconstructs_training {Xc : Matrix (Fin n) (Fin d) ℚ} {U : Matrix (Fin k) (Fin d) ℚ}
-    {l : Fin k → ℚ} (hn : 2 ≤ n) (h : EigContract (cov Xc) U l) (htr : trace (cov Xc) = ∑ i, l i)
-    (m : Fin d → ℚ) (s : Fin n) :
+theorem full_model_reconstructs_training {Xc : Matrix (Fin n) (Fin d) K} {U : Matrix (Fin k) (Fin d) K}
+    {l : Fin k → K} (hn : 2 ≤ n) (h : EigContract (cov Xc) U l) (htr : trace (cov Xc) = ∑ i, l i)
+    (m : Fin d → K) (s : Fin n) :
     reconstruct U m (fun j => Xc s j + m j) = fun j => Xc s j + m j := by
   have hz := residual_matrix_zero hn h htr
   rw [reconstruct_eq_projector]
@@ -211,10 +212,10 @@ theorem full_model_reconstructs_training {Xc : Matrix (Fin n) (Fin d) ℚ} {U : 
   simp only [Pi.add_apply, h1]
   linarith
 
-theorem sampleVariance_nonneg (hn : 2 ≤ n) (Xc : Matrix (Fin n) (Fin d) ℚ) (U : Matrix (Fin k) (Fin d) ℚ)
+theorem sampleVariance_nonneg (hn : 2 ≤ n) (Xc : Matrix (Fin n) (Fin d) K) (U : Matrix (Fin k) (Fin d) K)
     (i : Fin k) : 0 ≤ sampleVariance Xc U i := by
-  have hc : (0 : ℚ) < (n : ℚ) - 1 := by
-    have : (2 : ℚ) ≤ n := by exact_mod_cast hn
+  have hc : (0 : K) < (n : K) - 1 := by
+    have : (2 : K) ≤ n := by exact_mod_cast hn
     linarith
   unfold sampleVariance
   exact mul_nonneg (le_of_lt (inv_pos.mpr hc)) (Finset.sum_nonneg (fun s _ => sq_nonneg _))
